@@ -15,5 +15,12 @@ Quiescent == /\ \A i \in Idx : cst[i] # "new" \/ closed
              /\ reqQ = <<>>
              /\ \A q \in Queues : replyQ[q] = <<>> \/ ~HasConsumer(q)
 EmitScn == Quiescent => PrintT(<<"SCN", ToJson([cfg |-> cfg, sched |-> sched])>>)
+\* the synchronous (kombu) client blocks in its call until the reply has been delivered: one call at a time, no close()
+NoneWaiting == \A i \in Idx : cst[i] # "waiting"
+NextSeq == \/ \E i \in Idx : NoneWaiting /\ Start(i)
+           \/ Serve
+           \/ \E q \in Queues : (\E i \in Idx : cst[i] = "waiting" /\ QueueOf(i) = q) /\ DeliverReply(q)   \* it consumes only while it waits
+           \/ \E q \in Queues, c \in {0} \cup Idx, t \in {"json", "text"} : Stray(q, c, t)
+EmitSeq == (Quiescent /\ Finished) => PrintT(<<"SCN", ToJson([cfg |-> cfg, sched |-> sched])>>)
 NoNext == FALSE /\ UNCHANGED vars
 =============================================================================
